@@ -217,10 +217,14 @@ class RSync:
             and not self._sourcedir.startswith("\\\\?\\")
         ):
             sourcedir = "\\\\?\\" + self._sourcedir
-        try:
-            relpath = os.path.relpath(linkpoint, sourcedir)
-        except ValueError:
-            relpath = None
+        relpath = None
+        if os.path.isabs(linkpoint):
+            # only an absolute link can point "into the source tree"; a
+            # relative one is relative to its own directory, not to the cwd
+            try:
+                relpath = os.path.relpath(linkpoint, sourcedir)
+            except ValueError:
+                pass
         if (
             relpath is not None
             and relpath not in (os.curdir, os.pardir)
